@@ -174,6 +174,15 @@ def c14_cases(tier, rng):
 
 def c17_cases(tier, rng):
     cases = []
+    # the backend refuses the session itself (NewSession): the result of Hello is that error — also with the codes 500 and 502, which
+    # in SMTP make the client try HELO (the backend is asked again and answers again), and in LMTP must not (there is no other greeting)
+    for lm in (False, True):
+        for code, enh, msg in ((502, "5.7.1", b"go away"), (500, "5.0.0", b"no"), (550, "5.7.1", b"blocked\nsee policy"), (451, "4.3.0", b"later"), (421, "4.3.2", b"bye")):
+            for again in ("same", "ok"):
+                c = E2E(lmtp=lm)
+                c.q["NS"] = [g.se(code, enh, msg)] + ([g.se(code, enh, msg)] if again == "same" else ["ok"])
+                c.call("hello", hx(b"cli.example")); c.call("noop")
+                cases.append(c.case())
     CODES = [421, 450, 452, 550, 552, 554]
     ENHS = ["5.7.1", "4.2.0", "0.0.0", "-1.-1.-1"]
     MSGS = [b"", b"plain", b" leading", b"trailing ", b"5.7.1 looks like a code", "café €".encode(), b"line one\nline two", b"a\nb\nc",
